@@ -286,6 +286,12 @@ func main() {
 		if agg.replay != nil {
 			st = agg.replay.violationStatus[i]
 		}
+		if strings.HasPrefix(v.v.Label, "unwind-") {
+			// an unwinding assertion: the instance's loop bound is too small for its inputs - a defect of
+			// the check's configuration, reported as inconclusive, never as a violation of the property
+			agg.inconclusive = append(agg.inconclusive, fmt.Sprintf("unwinding assertion %q failed for %v: the stated bound does not cover the instance's inputs", v.v.Label, v.v.Params))
+			continue
+		}
 		switch st {
 		case "reproduced":
 			confirmed++
